@@ -5,6 +5,7 @@ package gens
 import (
 	"errors"
 	"fmt"
+	"io"
 
 	"github.com/zeebo/errs"
 	"pgregory.net/rapid"
@@ -118,6 +119,10 @@ func (s ErrSpec) Build() error {
 		err = codeBool{msg}
 	case "typed_nil":
 		err = unwrapOnly{msg: msg, err: (*typedNil)(nil)}
+	case "wraps_eof":
+		// an ordinary handler error that happens to wrap io.EOF (e.g. "upload incomplete: %w" around the EOF of its
+		// last receive): still an error, with its own text
+		err = fmt.Errorf("%s: %w", msg, io.EOF)
 	default:
 		if s.Twirp != nil {
 			err = twirpErr{*s.Twirp, msg}
@@ -249,6 +254,9 @@ func GenErr(maxMsg int, odd bool) *rapid.Generator[ErrSpec] {
 				"unknown", "invalid_argument", "malformed", "deadline_exceeded", "bad_route", "already_exists", "permission_denied", "resource_exhausted",
 				"failed_precondition", "aborted", "out_of_range", "unimplemented", "unavailable"}).Draw(t, "tcode")
 			s.Twirp = &c
+		}
+		if rapid.IntRange(0, 9).Draw(t, "wrapseof") == 0 {
+			s.Odd = "wraps_eof" // not hostile: the code is fixed by the statement as for any other error
 		}
 		if odd && rapid.IntRange(0, 3).Draw(t, "odd") == 0 {
 			s.Odd = rapid.SampledFrom([]string{"unwrap_nil", "cause_nil", "self_cycle", "two_cycle", "code_arity", "code_bool", "typed_nil", "long_chain"}).Draw(t, "oddkind")
